@@ -38,7 +38,8 @@ impl BytesSerializable for PurgeStream {
     }
 
     fn from_bytes(bytes: Bytes) -> Result<PurgeStream, IggyError> {
-        if bytes.len() < 5 {
+        // The shortest identifier (kind, length, 1-byte name) takes 3 bytes.
+        if bytes.len() < 3 {
             return Err(IggyError::InvalidCommand);
         }
 
